@@ -1,4 +1,5 @@
 import MsiProofs.Props.C11
+import MsiProofs.Lemmas.OtherCalls
 import MsiProofs.Lemmas.StreamsMap
 /-
 C11, second half — stream contents: user streams behave like a map from names to byte strings.
@@ -32,5 +33,12 @@ def write_keeps_rows := @MsiProofs.StreamsMap.write_keeps_rows
 example (s : Pkg) (n : List Char) (hv : StreamName.isValid n false = true) :
     readStream (writeStream (writeStream s n [1, 2, 3, 4, 5]).1 n [9]).1 n = .ok [9] :=
   (read_after_write _ n [9] hv).2
+
+/-- stream writes and removals, and the removal of the signature streams, keep every package
+invariant: they touch no table stream (a signature stream is not a table stream: `sig_ne_table`) -/
+def writeStream_full := @MsiProofs.OtherCalls.writeStream_full
+def removeStream_full := @MsiProofs.OtherCalls.removeStream_full
+def removeSignature_full := @MsiProofs.OtherCalls.removeSignature_full
+def sig_ne_table := @MsiProofs.OtherCalls.sig_ne_table
 
 end MsiProofs.C11
